@@ -74,6 +74,18 @@ CLAIMS = {
             "Decides: the canonical check and the writer/decoder tables agree (C15 rules); the 14 duplicated wire constants agree; all 8 decoders/probes use decode_size_with_offset and compare the first byte only with the protocol constants; no function reachable from decoders, serializers, tree hashers or run_program is recursive (259 functions, no SCC); body-consuming helpers fail on short reads; explicit panic sites in decoder code are audited. Not equal consumption / equal trees across decoders (value properties).",
             "Trusts rustc's MIR and callee resolution; unresolved trait calls are over-approximated by all local impls.",
             "DESIGN.md 4/C16"),
+    "C17": ("call-graph scan for hash-order iteration, dominance + linear normalisation of the 'never grows' guards in both path finders, structural pairing of writes and read-cache stack operations in the serializer loop",
+            "Decides: no HashMap/HashSet iteration is reachable from the compressing serializers (96 functions); a back-reference is emitted only when marker + path length <= length of the node replaced, in BOTH path finders, and never for nodes under 4 bytes; the serializer mirrors the decoder's stack (one read-cache push per written atom/back-reference after the write succeeded, one pop-two-and-cons per cons, left child written first). Not round-trip or canonicity of the output.",
+            "Trusts rustc's MIR; PathBuilder::serialized_length and atom_length_bits are covered by C15's tables.",
+            "DESIGN.md 4/C17"),
+    "C18": ("dominance ordering of fallible step -> ghost-pair -> push in the vector-stack decoder, pairing of remove_ghost_pair/new_pair in the materialising loop, comparison-set equality of the two path walkers' loop control, call-shape comparison of the length probe with the list-stack decoder",
+            "Decides the allocation-count parity clause (pair counts of both decoders agree per event class, also on failing inputs), that both decoders share the atom/path parsers and call the callback once per back-reference, that the two path walkers have identical loop control and direction, and that the length probe mirrors the list-stack decoder and reports the cursor. Not that both decoders build identical trees.",
+            "Trusts rustc's MIR; the acceptance sets being equal rests on the shared parsers plus identical path-walk control, not on a value-level comparison.",
+            "DESIGN.md 4/C18"),
+    "C22": ("argument-sequence rule on every Sha256::update / blob-list hashing site, pop-order vs push-order rule for pair hashes, index-provenance rule for the precomputed table, dominance rule for the stream hasher's slice position, Python ast check",
+            "Decides for all 11 Rust hashing sites and the Python hasher: prefix 01 + atom bytes or 02 + left + right, nothing else; the first hash argument of every pair hash is the left child's (by push/pop order or by name); the precomputed table is correct and indexed only by the value of an inline small integer; the stream hasher slices the body after consuming the prefix. Not SHA-256 itself.",
+            "Trusts chia_sha2 and Python's hashlib; `intern` delegates to the object cache.",
+            "DESIGN.md 4/C22"),
     "C23": ("static cost arithmetic: abstract interpretation of CLVM's cost rules on the fixed ChiaLisp program over an abstract tree, constants extracted from source, coefficient-wise inequalities",
             "Proof by closed forms: lisp(tree) = S + sum_atoms(A + B*len) + sum_pairs P is DERIVED from the program bytes embedded in the repository and the current constants (it reproduces the four CLVM figures printed in docs/sha256tree.md exactly), native(tree) likewise from its constants; B' <= B, A' <= A, P' < P, S'+A' < S+A imply native < lisp for every tree; discharged for both cost models (8 obligations + shape + 4 cross-checks).",
             "Trusted base: the 80-line cost-rule interpreter in rules/c23.py (which constant is charged for quote/apply/op call/path lookup/cons/listp/if/sha256 - pinned against the code by C02 and C10), constant extraction by the driver, the embedded program bytes.",
